@@ -14,7 +14,7 @@ if os.path.exists(src):
     src = open(src).read()
 vf.build()
 names = sys.argv[2:] or re.findall(r"(?m)^\s*let\s+([A-Za-z_][A-Za-z_0-9]*)", src)
-o = vf.run_jobs([{"id": "x", "src": src, "observe": names, "limits": {"calls": 10 ** 6, "search": 10 ** 5}, "timeout_ms": 20000}], "xr%d" % os.getpid())["x"]
+o = vf.run_jobs([{"id": "x", "src": src, "observe": names, "limits": {"calls": 10 ** 6, "search": 10 ** 5}, "timeout_ms": 20000, "perms": {"regex": True}}], "xr%d" % os.getpid())["x"]
 print("outcome:", vf.job_outcome(o))
 if vf.job_outcome(o) != "ok":
     print(json.dumps({k: v for k, v in o.items() if k in ("compile", "inst", "crash", "timeout")}, ensure_ascii=False)[:1500])
